@@ -430,6 +430,9 @@ def check_c13(tier: str) -> int:
             cand = sorted(lib, key=len)[: (6 if si % 2 == 0 else len(lib))]
             frs = [rxrig.with_pid(gen, rng.choice(cand), 1 + i) for i in range(3)]
             frs[0] = rxrig.with_pid(gen, rng.choice(lib[-5:]), 1)      # one frame with unusual address bytes in every stream
+            if gen == 5 and si == 0:
+                # two status messages with longer records in one stream (lib[-9], lib[-8]: AC status, strides 12 and 14)
+                frs[1], frs[2] = rxrig.with_pid(gen, lib[-9], 2), rxrig.with_pid(gen, lib[-8], 3)
             corrupted = si % 2 == 1
             if corrupted:
                 b = bytearray(frs[1])
